@@ -262,6 +262,9 @@ def run(ctx):
                    "inside a library procedure is reported with the library text's line/column under the program's file name" % (
                        loc_ty, [x.rsplit("::", 2)[-2] + "::" + x.rsplit("::", 1)[-1] for x in texts]), None)
 
+    # errors that arrive without a location do not pick up the location of whatever (possibly library) expression is under evaluation
+    evaltables.rule_error_locations(ctx, "C15-single-origin")
+
     # ------------------------------------------------------------------ C15-position
     ctx.rule("C15-position", "tokens are located from the lexer's position counters (bookkeeping: see C06-position)")
     nx = fb.find("<parser::lexer::Lexer as std::iter::Iterator>::next")
